@@ -210,6 +210,7 @@ class Program:
             _alpha.normalise_negated_tests(tree)
         self.inlined = []
         self.renamed = []
+        self.kw_table = {}
         self.folded_constants = []
         if self._known_functions is not None:
             self.renamed = _inline.undo_renames(trees, self._known_functions)
@@ -234,6 +235,7 @@ class Program:
                 for child in ast.iter_child_nodes(node):
                     child._parent = node
             _number(tree)
+        self.kw_table = _inline.keyword_table(trees)
 
     # ------------------------------------------------------------------
     def _abs_module(self, m, level, modname):
